@@ -16,7 +16,9 @@ def plan(tier):
            (PG.mixed_failures(["ok", "ok", "ok", "ok", "bad_arg", "ok"], 1), 1, PT),
            (PG.mixed_failures(["unpicklable_result", "bad_arg", "sysexit"], 2, 0.05), 1, PT),
            (PG.feeder_vs_break(2), 1, dict(kinds=("P",))),
-           (PG.shutdown_late_error(1), 1, PT)]
+           (PG.shutdown_late_error(1), 1, PT),
+           (PG.resubmit_from_callback("bad_arg", 1), 1, PT), (PG.resubmit_from_callback("raise", 1), 1, PT),
+           (PG.resubmit_from_callback("huge_arg", 2), 1, PT), (PG.resubmit_from_callback("ok", 1), 1, PT)]
     if tier == "thorough":
         pl += [(PG.failing("bad_arg", 1), 2, PT), (PG.many_unsendable(4, 1), 2, dict(kinds=("P",))),
                (PG.feeder_vs_break(2), 2, dict(kinds=("P",))),
